@@ -150,6 +150,25 @@ def eval_case(case):
             return (sexp.to_sexp('request', ('RKsyInterp', st, kwt, case['data'])), None, resp)
         except R.Unsupported as ex:
             return (None, 'reify: ' + str(ex), None)
+    if case['op'] == 'expr_print':
+        import pyexpr as PX
+        try:
+            e = eval(case['src'], namespace())
+        except Exception as ex:
+            return (None, 'expression raised %s' % type(ex).__name__, None)
+        try:
+            term = R.reify_operand(e)
+            toks = PX.tokens_of(repr(e))
+        except R.Unsupported as ex:
+            return (None, 'reify: ' + str(ex), None)
+        return (sexp.to_sexp('request', ('RExprPrint', term)), None, ('ROkToks', ('Some', toks)))
+    if case['op'] == 'expr_read':
+        import pyexpr as PX
+        try:
+            toks = PX.tokens_of(case['src'])
+        except R.Unsupported as ex:
+            return (None, 'tokens: ' + str(ex), None)
+        return (sexp.to_sexp('request', ('RExprRead', toks)), None, ('ROkExpr', PX.ast_term(case['src'])))
     if case['op'] == 'cops':
         try:
             req = ('RCops', [I.cop_term(o) for o in case['ops']])
